@@ -96,6 +96,9 @@ func LineBeginning(content bytes.Bytes, position bytes.Index, nl byte) bytes.Ind
 
 func LineEnd(content bytes.Bytes, position bytes.Index, nl byte) bytes.Index {
 	i := position
+	if max := bytes.Index(len(content)); i > max {
+		i = max
+	}
 	for i < bytes.Index(len(content)) {
 		c := content[i]
 		if c == nl {
